@@ -174,7 +174,12 @@ func (g *Gen) execCall(v ssa.Value, c *ssa.CallCommon, in ssa.Instruction, st St
 		g.assumed["fresh plain error (no Is/Unwrap): "+trimName(name)] = true
 		return
 	}
-	g.havocResults(v, c, st)
+	rs := g.havocResults(v, c, st)
+	if name == "time.NewTicker" || name == "time.NewTimer" {
+		if len(rs) == 1 {
+			g.assume(app(">", rs[0].S, "0")) // constructors that never return nil
+		}
+	}
 	if f, ok := c.Value.(*ssa.Function); ok && f.Name() == "init" && f.Synthetic != "" {
 		return // initialiser of an imported package: does not touch this package's state
 	}
